@@ -255,6 +255,10 @@ func alCall(a *ice.Agent, st alStep, own map[string]string) string {
 			}
 		}
 		sort.Strings(ids)
+		// the result belongs to the caller: overwriting it is no operation on the agent
+		for i := range cs {
+			cs[i] = cs[0]
+		}
 
 		return "rc:" + strings.Join(ids, ",")
 	case "OnCandidate":
